@@ -1703,6 +1703,33 @@ class CurveEngineC06:
                     st.append("smooth_height")
                 ops.append({"op": "prep", "route": "apply", "steps": st,
                             "options": gen_options(rng, st)})
+        # two directed openings, chosen by the run index alone (no draw from
+        # the generator: every other run stays what it was)
+        std = ["compute_tip_position", "correct_force_offset",
+               "correct_tip_offset"]
+        if index % 9 == 4:
+            # a file that brings its own tip position, made monotonic and
+            # then processed the usual way
+            cfg = {"kind": "synthetic", "model": "hertz_para", "n": 400,
+                   "E": 3000.0, "cp": 0.0, "baseline": 0.0, "noise": 0.001,
+                   "seed": 1 + index % 97, "innate_tip": True,
+                   "tip_noise": 3e-9}
+            ops = [{"op": "prep", "route": "apply", "options": {},
+                    "steps": ["compute_tip_position", "smooth_height"]},
+                   {"op": "prep", "route": "apply", "options": None,
+                    "steps": list(std)}] + ops
+        elif index % 9 == 7:
+            # the same steps, once with the slope correction's defaults and
+            # once with its other strategy / region spelled out
+            S_ = std + ["correct_force_slope"]
+            a_ = {"op": "prep", "route": "apply", "steps": S_,
+                  "options": {}}
+            b_ = {"op": "prep", "route": "apply", "steps": list(S_),
+                  "options": {"correct_force_slope": [
+                      {"strategy": "drift"}, {"strategy": "shift"},
+                      {"region": "all"}, {"region": "baseline"}][
+                          (index // 9) % 4]}}
+            ops = ([a_, b_] if (index // 9) % 2 else [b_, a_]) + ops
         return {"config": {"curve": cfg, "swarm": swarm, "xproc": xproc},
                 "ops": ops}
 
